@@ -220,6 +220,12 @@ void harness(void)
                 CHECK(unchanged, "a refused request changes nothing");
                 CHECK(s->Obj == 0 && s->Blk.State == BLK_IDLE, "server idle after refusing a request");
             }
+            /* whatever an earlier transfer left behind: a segmented transfer opened now starts at toggle 0, byte 0 */
+            if ((((cmd & 0xF2) == 0x20) || (cmd == 0x40)) && !is_abort && (s->Obj != 0) && (s->Blk.State == BLK_IDLE)) {
+                CHECK(s->Seg.TBit == 0, "a segmented transfer starts with toggle bit 0 whatever the previous transfer left behind");
+                CHECK(s->Seg.Num == 0, "a segmented transfer starts at byte 0 whatever the previous transfer left behind");
+            }
+            COVER((((cmd & 0xF2) == 0x20) || (cmd == 0x40)) && !is_abort && (s->Obj != 0) && (s->Blk.State == BLK_IDLE) && pre_tbit == 1, "segmented transfer opened after a left-over toggle bit");
         }
         COVER(is_abort && code == 0x06070012, "length too high");
         COVER(is_abort && code == 0x06070013, "length too low");
@@ -237,6 +243,14 @@ void harness(void)
         }
         if (((cmd & 0xEF) == 0x60) && rdn && (((cmd >> 4) & 1) != pre_tbit)) {
             CHECK(is_abort && code == 0x05030000, "upload segment request with the wrong toggle bit refused with 0503 0000h");
+        }
+        /* a segment that is answered positively is answered with its own toggle bit */
+        /* (not for 1200h:1: a write to the serving server's own COB-ID re-initialises that server inside the request) */
+        if (((cmd & 0xE0) == 0x00) && (env_tx_n == 1) && !is_abort && (TGT != 9)) {
+            CHECK((r->Data[0] & 0xEF) == 0x20 && ((r->Data[0] >> 4) & 1) == ((cmd >> 4) & 1), "download segment confirmed with the toggle bit of the request");
+        }
+        if (((cmd & 0xEF) == 0x60) && (env_tx_n == 1) && !is_abort) {
+            CHECK((r->Data[0] & 0xE0) == 0x00 && ((r->Data[0] >> 4) & 1) == ((cmd >> 4) & 1), "upload segment carries the toggle bit of the request");
         }
         COVER(is_abort && code == 0x05030000, "toggle error");
     }
